@@ -193,6 +193,17 @@ def run(case):
             bad(f"aliasing/{fname}", f"the array returned by {fname}(r1) changed when {fname}(r2) was evaluated (shared result buffer)", float(np.abs(np.asarray(a1, float) - keep).max()), 0)
         if not np.array_equal(r1, np.array([x[1]] * dim, dtype=float)):
             bad(f"input/{fname}", "evaluation point modified", r1.tolist(), "unchanged")
+        # a caller may scale the array it was handed (e.g. to map a gradient to physical coordinates): later evaluations on the
+        # same element object must not see that
+        try:
+            a1 *= 2.5
+            a2 += 1.0
+        except (ValueError, TypeError):
+            pass  # read-only result: fine
+        a3 = np.asarray(fn(r1), dtype=float)
+        ntrans += 1
+        if not np.array_equal(a3, keep):
+            bad(f"aliasing/{fname}/caller-mutation", f"{fname}(r) after the caller modified an earlier result in place differs from the first evaluation (result array owned by the element object)", float(np.abs(a3 - keep).max()), 0)
 
     # (v) degree bound: interpolate the tabulated function onto a shifted lattice
     y = lo + (hi - lo) * (np.arange(n + 1) + 0.37) / (n + 1.3)
